@@ -17,6 +17,7 @@ import EPV.Lemmas.EPPiston
 import EPV.Lemmas.EPPistonModels
 import EPV.Lemmas.EPPistonExists
 import EPV.Tactics
+import EPV.Lemmas.Bridge.EPPiston
 
 set_option linter.all false
 
@@ -26,31 +27,29 @@ namespace EPV.C17
 
 theorem hypo_yield_compressive (p : EPPistonHypo.P) (h : EPPistonHypo.outcome p = .ok) (hc : hypoConsistent p) :
     p.rho0 < p.rho_y := by
-  obtain ⟨_, hry, _⟩ := hc
-  simp only [epv_tree] at *
-  split_ifs at * <;> first
-    | epv_absurd
-    | (simp only [epv_cond, not_le, not_lt] at *
-       rw [hry]; simp only [epv_leaf]
-       have : 1 < Real.exp (p.Y / (2 * p.G)) := Real.one_lt_exp_iff.mpr (by positivity)
-       nlinarith)
+  obtain ⟨d, hry⟩ := EPP.hypo_doc p h hc
+  have hG := d.G_pos
+  have hY := d.Y_pos
+  have hρ := d.rho0_pos
+  rw [hry]
+  have : 1 < Real.exp (p.Y / (2 * p.G)) := Real.one_lt_exp_iff.mpr (by positivity)
+  nlinarith
 
 theorem ifin_yield_compressive (p : EPPistonIfin.P) (h : EPPistonIfin.outcome p = .ok) (hc : ifinConsistent p)
     (hY : p.Y < 2 * p.G) : p.rho0 < p.rho_y := by
-  obtain ⟨_, hry, _⟩ := hc
-  simp only [epv_tree] at *
-  split_ifs at * <;> first
-    | epv_absurd
-    | (simp only [epv_cond, not_le, not_lt] at *
-       rw [hry]; simp only [epv_leaf, Real.rpow_neg_one]
-       have h1 : 0 < 1 - p.Y / (2 * p.G) := by
-         have : p.Y / (2 * p.G) < 1 := by rw [div_lt_one (by positivity)]; exact hY
-         linarith
-       have h2 : 1 - p.Y / (2 * p.G) < 1 := by
-         have : 0 < p.Y / (2 * p.G) := by positivity
-         linarith
-       have : 1 < (1 - p.Y / (2 * p.G))⁻¹ := (one_lt_inv₀ h1).mpr h2
-       nlinarith)
+  obtain ⟨d, hry⟩ := EPP.ifin_doc p h hc
+  have hG := d.G_pos
+  have hY' := d.Y_pos
+  have hρ := d.rho0_pos
+  rw [hry]
+  have h1 : 0 < 1 - p.Y / (2 * p.G) := by
+    have : p.Y / (2 * p.G) < 1 := by rw [div_lt_one (by positivity)]; exact hY
+    linarith
+  have h2 : 1 - p.Y / (2 * p.G) < 1 := by
+    have : 0 < p.Y / (2 * p.G) := by positivity
+    linarith
+  have : 1 < (1 - p.Y / (2 * p.G))⁻¹ := (one_lt_inv₀ h1).mpr h2
+  nlinarith
 
 /-- the residual of `finite_yield` is positive for every stretch F ≥ 1: its positive roots are < 1 -/
 theorem epp_finite_yield_pos (G Y F : ℝ) (hG : 0 < G) (hY : 0 < Y) (hF : 1 ≤ F) :
@@ -66,42 +65,27 @@ theorem epp_finite_yield_pos (G Y F : ℝ) (hG : 0 < G) (hY : 0 < Y) (hF : 1 ≤
 
 theorem fin_yield_compressive (p : EPPistonFin.P) (h : EPPistonFin.outcome p = .ok) (hc : finConsistent p)
     (hres : EPPistonFin.yield_residual p = 0) (hF : 0 < p.F_y) : p.rho0 < p.rho_y := by
-  obtain ⟨_, hry, _⟩ := hc
-  simp only [epv_tree] at *
-  split_ifs at * <;> first
-    | epv_absurd
-    | (simp only [epv_cond, not_le, not_lt] at *
-       simp only [epv_leaf] at hres hry
-       have hlt : p.F_y < 1 := by
-         by_contra hge
-         have := epp_finite_yield_pos p.G p.Y p.F_y (by assumption) (by assumption) (not_lt.mp hge)
-         linarith
-       rw [hry, lt_div_iff₀ hF]
-       nlinarith)
+  obtain ⟨d, hry⟩ := EPP.fin_doc p h hc
+  have hρ := d.rho0_pos
+  rw [EPP.fin_yield_residual p h] at hres
+  have hlt : p.F_y < 1 := by
+    by_contra hge
+    have := epp_finite_yield_pos p.G p.Y p.F_y d.G_pos d.Y_pos (not_lt.mp hge)
+    linarith
+  rw [hry, lt_div_iff₀ hF]
+  nlinarith
 
 theorem hypo_plastic_compressive (p : EPPistonHypo.P) (h : EPPistonHypo.outcome p = .ok) (hc : hypoConsistent p)
-    (hρ : 0 < p.rho_y) (h1 : p.up < p.wv_pl) (h2 : p.vel_y < p.up) : p.rho_y < p.rho2 := by
-  obtain ⟨_, _, _, _, _, _, _, hr2⟩ := hc
-  simp only [epv_tree] at *
-  split_ifs at * <;> first
-    | epv_absurd
-    | (simp only [epv_leaf] at hr2; exact plastic_compressive hρ h1 h2 hr2)
+    (hρ : 0 < p.rho_y) (h1 : p.up < p.wv_pl) (h2 : p.vel_y < p.up) : p.rho_y < p.rho2 :=
+  plastic_compressive hρ h1 h2 (EPP.hypo_doc p h hc).1.rho2_eq
 
 theorem ifin_plastic_compressive (p : EPPistonIfin.P) (h : EPPistonIfin.outcome p = .ok) (hc : ifinConsistent p)
-    (hρ : 0 < p.rho_y) (h1 : p.up < p.wv_pl) (h2 : p.vel_y < p.up) : p.rho_y < p.rho2 := by
-  obtain ⟨_, _, _, _, _, _, _, hr2⟩ := hc
-  simp only [epv_tree] at *
-  split_ifs at * <;> first
-    | epv_absurd
-    | (simp only [epv_leaf] at hr2; exact plastic_compressive hρ h1 h2 hr2)
+    (hρ : 0 < p.rho_y) (h1 : p.up < p.wv_pl) (h2 : p.vel_y < p.up) : p.rho_y < p.rho2 :=
+  plastic_compressive hρ h1 h2 (EPP.ifin_doc p h hc).1.rho2_eq
 
 theorem fin_plastic_compressive (p : EPPistonFin.P) (h : EPPistonFin.outcome p = .ok) (hc : finConsistent p)
-    (hρ : 0 < p.rho_y) (h1 : p.up < p.wv_pl) (h2 : p.vel_y < p.up) : p.rho_y < p.rho2 := by
-  obtain ⟨_, _, _, _, _, _, _, hr2⟩ := hc
-  simp only [epv_tree] at *
-  split_ifs at * <;> first
-    | epv_absurd
-    | (simp only [epv_leaf] at hr2; exact plastic_compressive hρ h1 h2 hr2)
+    (hρ : 0 < p.rho_y) (h1 : p.up < p.wv_pl) (h2 : p.vel_y < p.up) : p.rho_y < p.rho2 :=
+  plastic_compressive hρ h1 h2 (EPP.fin_doc p h hc).1.rho2_eq
 
 /-- non-vacuity (default problem, model = 'hyperIfin') -/
 example : ∃ p : EPPistonIfin.P, EPPistonIfin.outcome p = .ok ∧ ifinConsistent p ∧ p.Y < 2 * p.G ∧ 0 < p.rho_y ∧
